@@ -73,12 +73,14 @@ func (self *ResourceSemaphore) Acquire(n int64) error {
 	if self.curSize-self.reserved >= n && len(self.waiters) == 0 {
 		// return immediately.
 		self.reserved += n
+		verifSem(self, "SemAcquire", n)
 		self.mu.Unlock()
 		return nil
 	}
 
 	if n > self.maxSize {
 		// This can never be served.
+		verifSem(self, "SemReject", n)
 		self.mu.Unlock()
 		return fmt.Errorf("Tried to acquire %s, when the maximum is %s.",
 			self.Formatter(n), self.Formatter(self.maxSize))
@@ -94,6 +96,7 @@ func (self *ResourceSemaphore) Acquire(n int64) error {
 	ready := make(chan struct{})
 	w := waiter{amount: n, ready: ready}
 	self.waiters = append(self.waiters, w)
+	verifSem(self, "SemEnqueue", n)
 	self.mu.Unlock()
 
 	<-ready
@@ -108,6 +111,7 @@ func (self *ResourceSemaphore) Release(n int64) {
 	if self.reserved < 0 {
 		panic("semaphore: bad release")
 	}
+	verifSem(self, "SemRelease", n)
 	self.runJobs()
 }
 
@@ -129,6 +133,7 @@ func (self *ResourceSemaphore) runJobs() {
 			return
 		}
 		self.reserved += waiter.amount
+		verifSem(self, "SemGrant", waiter.amount)
 		close(waiter.ready)
 		// Remove reference, so garbage collection can clean it up.
 		waiter.ready = nil
@@ -202,6 +207,7 @@ func (self *ResourceSemaphore) UpdateActual(n int64) int64 {
 		self.curSize = actualSize
 	}
 	// There may have been jobs blocked on the actual availability.
+	verifSem(self, "SemUpdate", n)
 	if oldSize < self.curSize {
 		self.runJobs()
 	}
@@ -218,6 +224,7 @@ func (self *ResourceSemaphore) UpdateSize(n int64) {
 	defer self.mu.Unlock()
 	oldSize := self.curSize
 	self.curSize = n
+	verifSem(self, "SemUpdate", n)
 	if oldSize < self.curSize {
 		self.runJobs()
 	}
@@ -248,6 +255,7 @@ func (self *ResourceSemaphore) UpdateFreeUsed(free, usedReservation int64) int64
 		}
 	}
 	// There may have been jobs blocked on the actual availability.
+	verifSem(self, "SemUpdate", free)
 	if oldSize < self.curSize {
 		self.runJobs()
 	}
